@@ -42,8 +42,8 @@ Scalars == <<
   <<".5", "nonjson", "">>, <<"+1", "nonjson", "">>, <<"017", "nonjson", "">>, <<"0x1F", "nonjson", "">> >>
 NSupported == 14
 Keys == <<"\"\"", "\"a\"", "\"b\"", "\"c\"">>         \* in ascending order of the decoded key
-Ws == <<"", " ", "\n", " \t", "\n  ">>               \* choices for a gap; 3 and 5 contain a line break
-HasNl(i) == i \in {3, 5}
+Ws == <<"", " ", "\n", " \t", "\n  ", "\r\n", "\r\n\r\n ">>   \* choices for a gap; 3, 5, 6, 7 contain a line break (6, 7: Windows line ends)
+HasNl(i) == i \in {3, 5, 6, 7}
 
 \* ---- scalars given by their source text -------------------------------------------------------------------
 \* chars: a sequence of one-character strings.  LitClass(chars) = <<class, skeleton tag>>:
